@@ -375,9 +375,10 @@ def real_phase(rec):
         return a, b
     for i in range(24):
         high = i % 2 == 1
-        n = r.choice([1, 7, 4096, 70000, 300000])
-        data = bytes((j * 37 + i) & 255 for j in range(n))
         direction = "recv" if i % 4 < 2 else "send"
+        # (sending through a 4 kB kernel buffer costs one back-off sleep of the library per refill: moderate sizes there)
+        n = r.choice([1, 7, 4096, 70000, 300000] if direction == "recv" else [1, 7, 4096, 20000, 60000])
+        data = bytes((j * 37 + i) & 255 for j in range(n))
         key = ("real", direction, high, n)
         rec.case(key, nontrivial=True)
         a, b = pair(high)
